@@ -349,3 +349,29 @@ def cycle_book(r, lead, cyc, extra_user=False):
         items.append(("heading", n)); items.append(("entry", ing, number(r, True)))
         if r.random() < 0.3: items.append(("entry", "salt", "1"))
     return items
+
+
+# ---------------------------------------------------------------------------
+# calendar days whose midnight does not exist in some time zone (daylight-saving switch at 00:00): a date parsed or
+# rebuilt in the local zone silently lands on another day or hour there
+# ---------------------------------------------------------------------------
+_GAPS = None
+def midnight_gap_days():
+    """[(zone name, utc offset in seconds just before the switch, datetime.date)] for 2015..2023, computed from the system's zoneinfo"""
+    global _GAPS
+    if _GAPS is not None: return _GAPS
+    import zoneinfo, datetime
+    out = []
+    for z in ["America/Havana", "America/Santiago", "America/Asuncion", "Asia/Beirut", "Africa/Cairo", "America/Sao_Paulo", "Asia/Tehran", "Asia/Amman", "Asia/Damascus", "Asia/Gaza"]:
+        try: tz = zoneinfo.ZoneInfo(z)
+        except Exception: continue
+        d = datetime.date(2015, 1, 1)
+        while d < datetime.date(2024, 1, 1):
+            loc = datetime.datetime(d.year, d.month, d.day, 0, 0, tzinfo=tz)
+            back = loc.astimezone(datetime.timezone.utc).astimezone(tz)
+            if (back.day, back.hour, back.minute) != (d.day, 0, 0):
+                before = datetime.datetime(d.year, d.month, d.day, 12, 0, tzinfo=tz) - datetime.timedelta(days=1)
+                out.append((z, int(before.utcoffset().total_seconds()), d))
+            d += datetime.timedelta(days=1)
+    _GAPS = out
+    return out
